@@ -442,7 +442,9 @@ pub struct KnowExport {
 }
 
 /// owner certificate of a Random node: the sender of the first Send marker reached from it
-/// through NOP nodes (PRF keys are generated by one party and sent to its neighbour); default 0.
+/// through NOP nodes (PRF keys are generated by one party and sent to its neighbour); otherwise the
+/// sender of the first message computed from it; default 0.  (A certificate: the Lean theorem holds for
+/// every owner assignment, the checker decides whether this one works.)
 fn random_owner(ir: &[IrNode], r: usize) -> u64 {
     let mut frontier = vec![r];
     let mut steps = 0;
@@ -457,6 +459,18 @@ fn random_owner(ir: &[IrNode], r: usize) -> u64 {
         for (j, n) in ir.iter().enumerate() {
             if matches!(n.op, Operation::NOP) && n.deps.contains(&(x as u64)) {
                 frontier.push(j);
+            }
+        }
+    }
+    // never sent itself (a key only one party uses, e.g. the truncation key of party 2): it is drawn by the
+    // party that first SENDS something computed from it
+    let mut cone = vec![false; ir.len()];
+    cone[r] = true;
+    for j in (r + 1)..ir.len() {
+        if ir[j].deps.iter().any(|d| cone[*d as usize]) {
+            cone[j] = true;
+            if let Some((s, _)) = ir[j].sends.first() {
+                return *s;
             }
         }
     }
